@@ -1,5 +1,7 @@
 import PvProofs.C18
 import PvProofs.C18Trigger
+import PvProofs.C18Name
+import PvProofs.C18Attr
 import PvProofs.C07
 import PvProofs.C02
 #print axioms PvProofs.C18.import_export
@@ -21,3 +23,10 @@ import PvProofs.C02
 #print axioms PvProofs.C07.regenesis_preserves_partial_observation
 #print axioms PvProofs.C02.initGenesis_accepts_iff
 #print axioms PvProofs.C02.from_matching_genesis
+#print axioms PvProofs.C18Name.genesis_round_trip
+#print axioms PvProofs.C18Name.exported_genesis_validates
+#print axioms PvProofs.C18Attr.genesis_round_trip
+#print axioms PvProofs.C18Attr.genesis_accepts_own_export
+#print axioms PvProofs.C18Attr.regenesis_counters_exact
+#print axioms PvProofs.C18Attr.regenesis_queue_exact
+#print axioms PvProofs.C18Attr.continuation_after_round_trip
